@@ -16,6 +16,9 @@ V13 = {
     "hrr13": dict(ver="13", helloVerify=True, **NOCID),
     "nohrr13": dict(ver="13", helloVerify=False, **NOCID),
     "frag13": dict(ver="13", helloVerify=True, mtu=300, **NOCID),
+    # one classical group only: the ClientHello fits into a single datagram
+    "hrr13s": dict(ver="13", helloVerify=True, curvesC=[29], curvesS=[29], **NOCID),
+    "nohrr13s": dict(ver="13", helloVerify=False, curvesC=[29], curvesS=[29], **NOCID),
 }
 ALL = dict(V12, **V13)
 
